@@ -68,9 +68,17 @@ func fieldPath(v ssa.Value) string {
 }
 
 func deltasOf(r *core.Run, fn *ssa.Function) []delta {
-	res := r.Resolver(fn)
 	var out []delta
-	for _, b := range fn.Blocks {
+	for _, fr := range frames(r, fn) {
+		out = append(out, deltasOfFrame(r, fn, fr)...)
+	}
+	return out
+}
+
+// deltasOfFrame: field updates in one frame, amounts expressed in the anchor's vocabulary.
+func deltasOfFrame(r *core.Run, anchor *ssa.Function, fr frame) []delta {
+	var out []delta
+	for _, b := range fr.Fn.Blocks {
 		for _, ins := range b.Instrs {
 			st, ok := ins.(*ssa.Store)
 			if !ok {
@@ -80,9 +88,9 @@ func deltasOf(r *core.Run, fn *ssa.Function) []delta {
 			if fp == "" {
 				continue
 			}
-			base := normT(res.Of(st.Addr).String())
-			v := normT(res.Of(st.Val).String())
-			rawV := res.Of(st.Val).String()
+			base := fr.T(r, st.Addr)
+			v := fr.T(r, st.Val)
+			rawV := fr.Raw(r, st.Val)
 			d := delta{Field: fp, Ins: st}
 			for _, pat := range []struct {
 				pre  string
@@ -96,15 +104,14 @@ func deltasOf(r *core.Run, fn *ssa.Function) []delta {
 			} {
 				if strings.HasPrefix(v, pat.pre) && strings.HasSuffix(v, ")") {
 					d.Sign = pat.sign
-					d.Term = byTypeParams(fn, v[len(pat.pre):len(v)-1])
-					// raw amount: last top-level argument of the raw value term
+					d.Term = byTypeParams(anchor, v[len(pat.pre):len(v)-1])
 					if i := strings.LastIndex(rawV, ","); i >= 0 && strings.HasSuffix(rawV, ")") {
-						d.Raw = byTypeParams(fn, rawV[i+1:len(rawV)-1])
+						d.Raw = byTypeParams(anchor, rawV[i+1:len(rawV)-1])
 					}
 				}
 			}
 			if d.Sign == 0 {
-				d.Term = byTypeParams(fn, v)
+				d.Term = byTypeParams(anchor, v)
 			}
 			out = append(out, d)
 		}
@@ -405,19 +412,17 @@ func checkC07(r *core.Run) {
 	}, 2)
 	// ShardRelease: debt repaid from the very coin that is then paid out, for the shard's own provider
 	if fn := r.Func("T-release-amount", "node/keeper.Keeper.ShardRelease"); fn != nil {
-		res := r.Resolver(fn)
 		okRepay := false
-		for _, c := range callsIn(r, fn, "node/keeper.Keeper.RepayPledgeDebt") {
-			if t := callTerm(res, c); t != nil && len(t.Args) == 2 && normT(t.Args[0].String()) == "#3.Sp" {
+		for _, dc := range deepCalls(r, fn, "node/keeper.Keeper.RepayPledgeDebt") {
+			if ts := dc.ArgTerms(r); len(ts) == 2 && ts[0] == "#3.Sp" {
 				okRepay = true
 			}
 		}
 		key := core.Key("T-release-amount", "node/keeper.Keeper.ShardRelease", "debt repaid for shard.Sp before payout")
-		rb := blocksCalling(r, fn, "node/keeper.Keeper.RepayPledgeDebt")
-		pay := callsIn(r, fn, "node/types.BankKeeper.SendCoinsFromModuleToAccount")
+		pay := deepCalls(r, fn, "node/types.BankKeeper.SendCoinsFromModuleToAccount")
 		okOrder := len(pay) > 0
 		for _, p := range pay {
-			if !rb[p.Block()] && forwardAvoid(fn.Blocks[0], rb, nil, func(b *ssa.BasicBlock) bool { return b == p.Block() }) != nil {
+			if !precededDeep(r, fn, p, "node/keeper.Keeper.RepayPledgeDebt") {
 				okOrder = false
 			}
 		}
@@ -437,19 +442,19 @@ func ruleBooked(r *core.Run) {
 	if fn := r.Func("T-booked", "node/keeper.Keeper.ShardPledge"); fn != nil {
 		ds := findDelta(deltasOf(r, fn), "order/types.Shard.Pledge")
 		key := core.Key("T-booked", "node/keeper.Keeper.ShardPledge", "Shard.Pledge == coins taken (+ debt recorded)")
-		res := r.Resolver(fn)
+		_ = r.Resolver(fn)
 		okB := len(ds) == 1
 		if okB {
 			v := ds[0].Term
 			nsend := 0
-			for _, c := range callsIn(r, fn, "node/types.BankKeeper.SendCoinsFromAccountToModule") {
-				t := callTerm(res, c)
-				if t == nil || len(t.Args) != 3 {
+			for _, dc := range deepCalls(r, fn, "node/types.BankKeeper.SendCoinsFromAccountToModule") {
+				targs := dc.ArgTerms(r)
+				if len(targs) != 3 {
 					okB = false
 					continue
 				}
 				nsend++
-				amt := byTypeParams(fn, normT(t.Args[2].String()))
+				amt := byTypeParams(fn, targs[2])
 				full := amt == "sdk.Coins.Add(sdk.NewCoins(nil),["+v+"])"
 				partial := strings.HasPrefix(amt, "[node/types.BankKeeper.GetBalance(")
 				if !full && !partial {
@@ -483,7 +488,7 @@ func ruleBooked(r *core.Run) {
 	}
 	// path clause: no success return of ShardPledge is reachable without a transfer into the node escrow
 	if fn := r.Func("T-booked", "node/keeper.Keeper.ShardPledge"); fn != nil {
-		take := blocksCalling(r, fn, "node/types.BankKeeper.SendCoinsFromAccountToModule")
+		take := blocksCallingDeep(r, fn, "node/types.BankKeeper.SendCoinsFromAccountToModule", 0)
 		succ := successBlocks(r, fn)
 		key := core.Key("T-booked", "node/keeper.Keeper.ShardPledge", "collateral taken on every success path")
 		var bad []*ssa.BasicBlock
